@@ -4,8 +4,6 @@ import (
 	"bytes"
 	"errors"
 	"fmt"
-
-	"github.com/vmihailenco/msgpack/v5"
 )
 
 // CondOp identifies a Condition comparator.
@@ -160,10 +158,10 @@ func compareLeafBytes(a, b []byte) (int, error) {
 
 	// Non-numeric: try string/bytes/bool via msgpack.Unmarshal.
 	var av, bv any
-	if err := msgpack.Unmarshal(a, &av); err != nil {
+	if err := UnmarshalChecked(a, &av); err != nil {
 		return 0, fmt.Errorf("%w: %v", ErrInvalidMsgpack, err)
 	}
-	if err := msgpack.Unmarshal(b, &bv); err != nil {
+	if err := UnmarshalChecked(b, &bv); err != nil {
 		return 0, fmt.Errorf("%w: %v", ErrInvalidMsgpack, err)
 	}
 	switch x := av.(type) {
